@@ -41,6 +41,8 @@ void splinetable<Alloc>::permuteDimensions(const std::vector<size_t>& permutatio
 	t_extents[0]=new double[2*ndim];
 	for(uint32_t i=1; i<ndim; i++)
 		t_extents[i] = &t_extents[0][2*i];
+	//periods may legitimately be absent (e.g. for a freshly fitted table)
+	std::unique_ptr<double[]> t_periods(periods ? new double[ndim] : nullptr);
 	
 	// Permute various per-axis properties
 	uint32_t iperm[ndim];
@@ -53,6 +55,8 @@ void splinetable<Alloc>::permuteDimensions(const std::vector<size_t>& permutatio
 		t_knots[i] = knots[j];
 		t_extents[i][0] = extents[j][0];
 		t_extents[i][1] = extents[j][1];
+		if(periods)
+			t_periods[i] = periods[j];
 	}
 	
 	// Compute new strides
@@ -81,6 +85,8 @@ void splinetable<Alloc>::permuteDimensions(const std::vector<size_t>& permutatio
 		extents[i][0]=t_extents[i][0];
 		extents[i][1]=t_extents[i][1];
 	}
+	if(periods)
+		std::copy(t_periods.get(),t_periods.get()+ndim,periods);
 	std::copy(t_coefficients.get(),t_coefficients.get()+ncoeffs,coefficients);
 }
 	
